@@ -1,7 +1,7 @@
 SPECIFICATION TraceSpec
 CONSTANTS
   Agents = {"a1", "a2"}
-  Ids = {1, 2, 3}
+  Ids = {0, 1, 2, 3}
   SendLogs = FALSE
   MaxOps = 1000000
 INVARIANTS OnlyOutstandingHaveEffect
